@@ -235,10 +235,13 @@ func (z *ZodArray[T, R]) PrefaultFunc(fn func() T) *ZodArray[T, R] {
 
 // Metadata methods
 
-// Meta stores metadata for this array schema in the global registry.
+// Meta returns a new schema with the given metadata stored in the global
+// registry; the receiver and its registry entry are unchanged.
 func (z *ZodArray[T, R]) Meta(meta core.GlobalMeta) *ZodArray[T, R] {
-	core.GlobalRegistry.Add(z, meta)
-	return z
+	in := z.internals.Clone()
+	clone := z.withInternals(in)
+	core.GlobalRegistry.Add(clone, meta)
+	return clone
 }
 
 // Describe sets a description for this schema in the global registry.
